@@ -11,6 +11,7 @@ import (
 	"syscall"
 	"testing"
 	"time"
+	"unsafe"
 
 	"github.com/cloudwego/dynamicgo/conv"
 	"github.com/cloudwego/dynamicgo/conv/j2p"
@@ -311,21 +312,63 @@ func call(c *pbt.Ctx, target string, inLen int, f func()) {
 	}
 }
 
-// thriftSub addresses below a container with the path kind its type takes.
-func thriftSub(v generic.Value, ty *tm.Type) {
+// inside panics (reported as a failure of the call) when a node handed out lies outside the input it was read from.
+func inside(what string, n generic.Node, data []byte) {
+	if n.IsError() {
+		return
+	}
+	raw := n.Raw()
+	if len(raw) == 0 || len(data) == 0 {
+		return
+	}
+	lo, hi := uintptr(unsafe.Pointer(&data[0])), uintptr(unsafe.Pointer(&data[0]))+uintptr(len(data))
+	p := uintptr(unsafe.Pointer(&raw[0]))
+	if p < lo || p+uintptr(len(raw)) > hi {
+		panic(fmt.Sprintf("%s hands out a node of %d bytes that lies outside the input of %d bytes (offset %d)", what, len(raw), len(data), int64(p)-int64(lo)))
+	}
+}
+
+func pinside(what string, n pgeneric.Node, data []byte) {
+	if n.IsError() {
+		return
+	}
+	raw := n.Raw()
+	if len(raw) == 0 || len(data) == 0 {
+		return
+	}
+	lo, hi := uintptr(unsafe.Pointer(&data[0])), uintptr(unsafe.Pointer(&data[0]))+uintptr(len(data))
+	p := uintptr(unsafe.Pointer(&raw[0]))
+	if p < lo || p+uintptr(len(raw)) > hi {
+		panic(fmt.Sprintf("proto %s hands out a node of %d bytes that lies outside the input of %d bytes (offset %d)", what, len(raw), len(data), int64(p)-int64(lo)))
+	}
+}
+
+// thriftSub addresses below a container with the path kind its type takes, through GetByPath and through the
+// single-step accessors (which share little code with it); whatever comes back must lie inside the input.
+func thriftSub(v generic.Value, ty *tm.Type, data []byte) {
 	switch ty.K {
 	case tm.LIST, tm.SET:
-		_ = v.GetByPath(generic.NewPathIndex(0))
-		_ = v.GetByPath(generic.NewPathIndex(3))
-		_ = v.GetByPath(generic.NewPathIndex(1 << 30))
+		for _, i := range []int{0, 1, 3, 1 << 30} {
+			inside("GetByPath(index)", v.GetByPath(generic.NewPathIndex(i)).Node, data)
+			inside("Value.Index", v.Index(i).Node, data)
+			inside("Node.Index", v.Node.Index(i), data)
+		}
+		if n, err := v.Len(); err == nil && n > 0 && n < 1<<20 {
+			inside("Value.Index(last)", v.Index(n-1).Node, data)
+			inside("Value.Index(middle)", v.Index(n/2).Node, data)
+		}
 	case tm.MAP:
 		switch {
 		case ty.Key.K == tm.STRING:
-			_ = v.GetByPath(generic.NewPathStrKey("a"))
+			inside("GetByPath(key)", v.GetByPath(generic.NewPathStrKey("a")).Node, data)
+			inside("Value.GetByStr", v.GetByStr("a").Node, data)
+			inside("Value.GetByStr", v.GetByStr("").Node, data)
 		case ty.Key.K.IsInt():
-			_ = v.GetByPath(generic.NewPathIntKey(1))
+			inside("GetByPath(key)", v.GetByPath(generic.NewPathIntKey(1)).Node, data)
+			inside("Value.GetByInt", v.GetByInt(1).Node, data)
+			inside("Value.GetByInt", v.GetByInt(0).Node, data)
 		default:
-			_ = v.GetByPath(generic.NewPathBinKey([]byte{1}))
+			inside("GetByPath(key)", v.GetByPath(generic.NewPathBinKey([]byte{1})).Node, data)
 		}
 	}
 }
@@ -377,11 +420,13 @@ func checkThrift(c *pbt.Ctx, cs Case) {
 				sub := v.GetByPath(generic.NewPathFieldId(thrift.FieldID(fd.ID)))
 				if !sub.IsError() {
 					_ = sub.Raw()
-					thriftSub(sub, fd.T)
+					inside("GetByPath(field)", sub.Node, data)
+					inside("Value.Field", v.Field(thrift.FieldID(fd.ID)).Node, data)
+					thriftSub(sub, fd.T, data)
 				}
 			}
 		} else {
-			thriftSub(v, cs.U.Root)
+			thriftSub(v, cs.U.Root, data)
 		}
 	})
 	if cs.U.Root.K == tm.STRUCT {
@@ -476,14 +521,25 @@ func checkProto(c *pbt.Ctx, cs Case) {
 			fd := md.Fields().Get(i)
 			sub := v.GetByPath(pgeneric.NewPathFieldId(dproto.FieldNumber(fd.Number())))
 			if !sub.IsError() {
+				pinside("GetByPath(field)", sub.Node, data)
+				pinside("Value.Field", v.Field(dproto.FieldNumber(fd.Number())).Node, data)
 				switch {
 				case fd.IsMap() && fd.MapKey().Kind().String() == "string":
-					_ = sub.GetByPath(pgeneric.NewPathStrKey("a"))
+					pinside("GetByPath(key)", sub.GetByPath(pgeneric.NewPathStrKey("a")).Node, data)
+					pinside("Value.GetByStr", sub.GetByStr("a").Node, data)
+					pinside("Value.GetByStr", sub.GetByStr("").Node, data)
 				case fd.IsMap():
-					_ = sub.GetByPath(pgeneric.NewPathIntKey(1))
+					pinside("GetByPath(key)", sub.GetByPath(pgeneric.NewPathIntKey(1)).Node, data)
+					pinside("Value.GetByInt", sub.GetByInt(1).Node, data)
+					pinside("Value.GetByInt", sub.GetByInt(0).Node, data)
 				case fd.IsList():
-					_ = sub.GetByPath(pgeneric.NewPathIndex(0))
-					_ = sub.GetByPath(pgeneric.NewPathIndex(1 << 30))
+					for _, i := range []int{0, 1, 3, 1 << 30} {
+						pinside("GetByPath(index)", sub.GetByPath(pgeneric.NewPathIndex(i)).Node, data)
+						pinside("Value.Index", sub.Index(i).Node, data)
+					}
+					if n, err := sub.Len(); err == nil && n > 0 && n < 1<<20 {
+						pinside("Value.Index(last)", sub.Index(n-1).Node, data)
+					}
 				}
 			}
 		}
